@@ -1,4 +1,4 @@
-(* C06 - for EVERY program (conforming or not): no destructor runs more often than its object was
+(* C06 - for EVERY program, by an invariant that does not go through the Spec: no destructor runs more often than its object was
    constructed, no defer more often than it was registered - at every prefix of the transcript.
    Generic invariant lemma over the Mech executor + a counting invariant instantiated twice. *)
 From Coq Require Import List Arith Bool Lia.
@@ -212,12 +212,12 @@ Qed.
 
 Lemma Jobj_pop_destructor : forall st, Jobj st -> Jobj (pop_destructor_scope st).
 Proof.
-  intros [a b c t] H. destruct b as [|l r].
-  - rewrite pop_destructor_scope_nil. now apply Jobj_pop_defer.
-  - rewrite pop_destructor_scope_cons. apply Jobj_pop_defer.
-    unfold Jobj in *; simpl in *.
-    eapply J_release with (dev := EDtor); eauto using disj_obj.
-    intros k. rewrite occ_rev, occ_app. lia.
+  intros st H. apply Jobj_pop_defer in H. unfold pop_destructor_scope.
+  destruct (pop_defer_scope st) as [a b c t]; simpl.
+  destruct b as [|l r]; [exact H|].
+  rewrite run_destructors_eq. unfold Jobj in *; simpl in *.
+  eapply J_release with (dev := EDtor); eauto using disj_obj.
+  intros k. rewrite occ_rev, occ_app. lia.
 Qed.
 
 Lemma Jobj_emit_neutral : forall e st, c_obj e = None -> d_obj e = None -> Jobj st -> Jobj (emit [e] st).
@@ -250,14 +250,12 @@ Proof.
     destruct (pop_destructor_scope st); exact H.
   - (* pre_return_cleanup *)
     intros [a b c t] H. unfold pre_return_cleanup; simpl.
-    assert (H1 : Jobj (match a with
-                       | ((_ :: _) as l) :: r => emit (map EDefer (rev l)) (mk r b c t)
-                       | _ => mk a b c t end)).
-    { destruct a as [|[|x l] r]; auto. unfold Jobj in *; simpl in *.
-      apply J_neutral; auto. apply neutral_defers_obj. }
     set (st1 := match a with
-                | ((_ :: _) as l) :: r => emit (map EDefer (rev l)) (mk r b c t)
-                | _ => mk a b c t end) in *.
+                | ((_ :: _) as l) :: r => emit (map EDefer (rev l)) (mk ([] :: r) b c t)
+                | _ => mk a b c t end).
+    assert (H1 : Jobj st1).
+    { subst st1. destruct a as [|[|x l] r]; auto. unfold Jobj in *; simpl in *.
+      apply J_neutral; auto. apply neutral_defers_obj. }
     assert (Eb : dts st1 = b) by (subst st1; destruct a as [|[|x l] r]; reflexivity).
     destruct st1 as [a1 b1 c1 t1]; simpl in Eb; subst b1; simpl.
     destruct b as [|[|x l] r]; auto.
@@ -291,10 +289,11 @@ Qed.
 
 Lemma Jdef_pop_destructor : forall st, Jdef st -> Jdef (pop_destructor_scope st).
 Proof.
-  intros [a b c t] H. destruct b as [|l r].
-  - rewrite pop_destructor_scope_nil. now apply Jdef_pop_defer.
-  - rewrite pop_destructor_scope_cons. apply Jdef_pop_defer.
-    unfold Jdef in *; simpl in *. apply J_neutral; auto. apply neutral_dtors_def.
+  intros st H. apply Jdef_pop_defer in H. unfold pop_destructor_scope.
+  destruct (pop_defer_scope st) as [a b c t]; simpl.
+  destruct b as [|l r]; [exact H|].
+  rewrite run_destructors_eq. unfold Jdef in *; simpl in *.
+  apply J_neutral; auto. apply neutral_dtors_def.
 Qed.
 
 Lemma Jdef_emit_neutral : forall e st, c_def e = None -> d_def e = None -> Jdef st -> Jdef (emit [e] st).
@@ -320,15 +319,13 @@ Proof.
   - intros st H. rewrite pop_scope_unfold. apply Jdef_pop_destructor in H.
     destruct (pop_destructor_scope st); exact H.
   - intros [a b c t] H. unfold pre_return_cleanup; simpl.
-    assert (H1 : Jdef (match a with
-                       | ((_ :: _) as l) :: r => emit (map EDefer (rev l)) (mk r b c t)
-                       | _ => mk a b c t end)).
-    { destruct a as [|[|x l] r]; auto. unfold Jdef in *; simpl in *.
+    set (st1 := match a with
+                | ((_ :: _) as l) :: r => emit (map EDefer (rev l)) (mk ([] :: r) b c t)
+                | _ => mk a b c t end).
+    assert (H1 : Jdef st1).
+    { subst st1. destruct a as [|[|x l] r]; auto. unfold Jdef in *; simpl in *.
       eapply J_release with (dev := EDefer) (m := rev l ++ [x]); eauto using disj_def.
       intros k. repeat (rewrite occ_cons || rewrite occ_app || rewrite occ_rev || rewrite occ_nil). destruct (k =? x); lia. }
-    set (st1 := match a with
-                | ((_ :: _) as l) :: r => emit (map EDefer (rev l)) (mk r b c t)
-                | _ => mk a b c t end) in *.
     assert (Eb : dts st1 = b) by (subst st1; destruct a as [|[|x l] r]; reflexivity).
     destruct st1 as [a1 b1 c1 t1]; simpl in Eb; subst b1; simpl.
     destruct b as [|[|x l] r]; auto.
